@@ -20,6 +20,7 @@ Vocabulary
 -/
 import PymotoVerif.Lemmas.Network
 import PymotoVerif.Lemmas.NetworkFwd
+import PymotoVerif.Lemmas.NetworkResp
 
 namespace PymotoVerif.C02
 open PymotoVerif PymotoVerif.Net Finset
@@ -91,15 +92,8 @@ theorem backprop_total_derivative (L : Layout) (hL : L.WF) (g : Prog α) (hg : g
   · simp [hT e he]
   · rw [backprop_is_transpose L hL g hg σ σ' hc h hssa e he]
 
-/- NOT PROVED (full strength of the property at the level of the composed response):
-   `backprop_total_derivative_response` — for a program in which, additionally, nothing is read before it
-   is written, running `Prog.response` on the perturbed sources `x + t·T` gives
-   `st' = (response x).st + t · fwdChain U (g.lmods (response x).st) T + O(t²)` entry-wise (chain rule for the
-   composition of the modules).  What IS proved: each module's `Kind.jac` is the exact derivative of its
-   `Kind.f` (`local_jacobian_is_derivative`), each coded adjoint is its transpose
-   (`local_adjoint_is_transposed_jacobian`), and the sweep equals the transposed chain of these local
-   derivatives (`backprop_total_derivative`).  The composition step is checked on the real code on every run
-   by the oracle of `harness/props/c02.py` (exact forward differences / dual numbers through the real network). -/
+/- The chain rule for the COMPOSED response (that `fwdChain` of the local derivatives is the derivative of
+   `Prog.response` itself) is `response_taylor` / `backprop_is_total_derivative_of_response` below. -/
 
 /-- Fan-out / fan-in: the coefficient with which the seed on entry `o` reaches the source entry `e`
     is the `(o, e)` entry of the product `Fₖ · … · F₁` of the local Jacobian matrices, i.e. the sum
@@ -169,6 +163,72 @@ theorem nested_flatten (L : Layout) (g : Prog α) (σ : Store α) :
       | ok σ1 => exact (ihi σ1).2.1
     · simp only [Prog.reset, Prog.flat, Prog.reset_append, (ihr σ).2.2, (ihi _).2.2]
 
+/-! ## chain rule for the composed response, and the headline theorem
+
+Additional vocabulary (both decidable, `Bool`-valued, on the program itself):
+* `g.ssaEntries`  : no store entry is written twice (single assignment at entry granularity);
+* `g.rawOrdered`  : read-after-write ordering — every entry read by a module is written by an EARLIER
+                    module or by no module at all (a source). -/
+
+/-- Exact Taylor expansion of the composed response along every line: running the SAME executable
+    `Prog.response` on the perturbed states `x + t·δ` succeeds iff it does on `x`, and every entry of
+    the result is `response x + t · (Fₖ ∘ … ∘ F₁) δ + t² · R`, where the `Fₘ` are the modules
+    linearised at the response states and `R = remChain …` is an explicit polynomial remainder.
+    Holds for every `t` in every commutative ring, so `fwdChain U (g.lmods σ'.st) δ` IS `d/dt response`. -/
+theorem response_taylor (L : Layout) (g : Prog α) (hg : g.WF L) (hs : g.ssaEntries = true)
+    (hr : g.rawOrdered = true) (U : Finset Nat) (hU : ∀ p ∈ g.flat, ∀ e ∈ entsOf p.ins, e ∈ U)
+    (t : α) (δ : Nat → α) (σ σt σ' : Store α) (hfl : σt.hasSt = σ.hasSt)
+    (hst : ∀ e, σt.st e = σ.st e + t * δ e) (h : g.response σ = .ok σ') :
+    ∃ σt', g.response σt = .ok σt' ∧ σt'.hasSt = σ'.hasSt ∧
+      ∀ e, σt'.st e = σ'.st e + t * fwdChain U (g.lmods σ'.st) δ e
+        + t * t * remChain U t g.flat σ'.st δ (fun _ => 0) e := by
+  rw [Prog.response_flat] at h ⊢
+  have hnd : (outEnts g.flat).Nodup := by simpa [Prog.ssaEntries] using hs
+  exact list_response_expand L U g.flat (Prog.WF_flat L g hg) hnd (Prog.ordered_of_raw g hs hr) hU t
+    σ σt σ' δ (fun _ => 0) hfl (fun e => by rw [hst e]; ring) h
+
+/-- Dual-number form: for an infinitesimal `t` (`t² = 0`, e.g. `ε` in `α[ε]`), the response at
+    `x + t·δ` is exactly `response x + t · fwdChain δ`. -/
+theorem response_dual (L : Layout) (g : Prog α) (hg : g.WF L) (hs : g.ssaEntries = true)
+    (hr : g.rawOrdered = true) (U : Finset Nat) (hU : ∀ p ∈ g.flat, ∀ e ∈ entsOf p.ins, e ∈ U)
+    (t : α) (ht : t * t = 0) (δ : Nat → α) (σ σt σ' : Store α) (hfl : σt.hasSt = σ.hasSt)
+    (hst : ∀ e, σt.st e = σ.st e + t * δ e) (h : g.response σ = .ok σ') :
+    ∃ σt', g.response σt = .ok σt' ∧
+      ∀ e, σt'.st e = σ'.st e + t * fwdChain U (g.lmods σ'.st) δ e := by
+  obtain ⟨σt', a, _, c⟩ := response_taylor L g hg hs hr U hU t δ σ σt σ' hfl hst h
+  exact ⟨σt', a, fun e => by rw [c e, ht, zero_mul, add_zero]⟩
+
+/-- HEADLINE.  For every well-formed, single-assignment, read-after-write ordered program `g` (any
+    wiring, fan-out, repeated and sliced signals, nesting), every input `σ`, every seed `σw.se` placed on
+    any signals after the response (`σw` = the response result with arbitrary sensitivities, `Clean`), and
+    every direction `δ` of the source entries:  `⟨seed, d/dt response(x + t δ)⟩ = ⟨back-propagated
+    sensitivities, δ⟩`, where `d/dt response` is the `t`-coefficient `D` of the exact expansion
+    `response (x + t δ) = response x + t · D + t² · R` of the executable model (all `t`). -/
+theorem backprop_is_total_derivative_of_response (L : Layout) (hL : L.WF) (g : Prog α) (hg : g.WF L)
+    (hs : g.ssaEntries = true) (hr : g.rawOrdered = true) (U : Finset Nat)
+    (hUin : ∀ p ∈ g.flat, ∀ e ∈ entsOf p.ins, e ∈ U) (hUout : ∀ p ∈ g.flat, ∀ e ∈ entsOf p.outs, e ∈ U)
+    (δ : Nat → α) (hδ : ∀ e ∈ outEnts g.flat, δ e = 0) (t : α)
+    (σ σt σ1 σw σ2 : Store α) (hfl : σt.hasSt = σ.hasSt) (hst : ∀ e, σt.st e = σ.st e + t * δ e)
+    (h1 : g.response σ = .ok σ1) (hw : σw.st = σ1.st) (hc : Clean L σw)
+    (h2 : g.sensitivity L σw = .ok σ2) :
+    ∃ (σt1 : Store α) (D R : Nat → α), g.response σt = .ok σt1 ∧
+      (∀ e, σt1.st e = σ1.st e + t * D e + t * t * R e) ∧
+      D = fwdChain U (g.lmods σ1.st) δ ∧ R = remChain U t g.flat σ1.st δ (fun _ => 0) ∧
+      pair U σw.se D = pair U σ2.se δ := by
+  obtain ⟨σt1, a, _, c⟩ := response_taylor L g hg hs hr U hUin t δ σ σt σ1 hfl hst h1
+  refine ⟨σt1, _, _, a, c, rfl, rfl, ?_⟩
+  have hnd : (outEnts g.flat).Nodup := by simpa [Prog.ssaEntries] using hs
+  rw [← hw]
+  apply backprop_total_derivative L hL g hg σw σ2 hc h2 (SSA_of_nodup g.flat σw.st hnd) U
+  · intro m hm
+    simp only [Prog.lmods, List.mem_map] at hm
+    obtain ⟨p, hp, rfl⟩ := hm
+    intro e he
+    exact hUout p hp e (by simpa [Prim.lmod] using he)
+  · intro e he
+    simp only [Prog.lmods, written_map, List.mem_toFinset] at he
+    exact hδ e he
+
 /-! ## non-vacuity: a diamond `x → a = x², y = x ⊙ a` inside a nested network, over `ℤ`
 
 `y = x³` entry-wise, so `∂y/∂x = 3x²` arrives along two paths (direct, coefficient `a = x²`, and
@@ -219,6 +279,38 @@ example : L.WF ∧ g.WF L ∧ Clean L σ ∧ SSA (g.lmods σ.st) ∧
     · rw [o2]; decide
   · rw [hl]; simp only [written, o1, o2]; decide
   · refine ⟨_, rfl, ?_, ?_⟩ <;> decide
+
+/-- `backprop_is_total_derivative_of_response` on the nested diamond: `x = (2,3)`, direction `δ = e₀`,
+    `t = 1`, seed `(1,1)` on `y`: all hypotheses hold (the two decidable predicates by evaluation), the
+    sweep gives `∂y₀/∂x₀ = 12`, and the response at `x + δ = (3,3)` is `y₀ = 27 = 8 + 1·12 + 1²·7`. -/
+example :
+    let σ0 : Store ℤ := { st := fun e => [2, 3].getD e 0, se := fun _ => 0,
+                          hasSt := fun b => decide (b = 0), hasSe := fun _ => false }
+    let δ : Nat → ℤ := fun e => if e = 0 then 1 else 0
+    let σp : Store ℤ := { σ0 with st := fun e => σ0.st e + 1 * δ e }
+    let seeded : Store ℤ → Store ℤ := fun s =>
+      { s with se := fun e => if e = 4 ∨ e = 5 then 1 else 0, hasSe := fun b => decide (b = 2) }
+    Demo.g.ssaEntries = true ∧ Demo.g.rawOrdered = true ∧
+    (∀ p ∈ Demo.g.flat, ∀ e ∈ entsOf p.ins, e ∈ Finset.range 6) ∧
+    (∀ p ∈ Demo.g.flat, ∀ e ∈ entsOf p.outs, e ∈ Finset.range 6) ∧
+    (∀ e ∈ outEnts Demo.g.flat, δ e = 0) ∧ σp.hasSt = σ0.hasSt ∧ (∀ e, σp.st e = σ0.st e + 1 * δ e) ∧
+    ∃ σ1, Demo.g.response σ0 = .ok σ1 ∧ σ1.st 4 = 8 ∧ Clean Demo.L (seeded σ1) ∧
+      ∃ σ2, Demo.g.sensitivity Demo.L (seeded σ1) = .ok σ2 ∧ σ2.se 0 = 12 ∧
+        ∃ σt1, Demo.g.response σp = .ok σt1 ∧ σt1.st 4 = 27 := by
+  intro σ0 δ σp seeded
+  have hf : Demo.g.flat = [Demo.pSq, Demo.pMul] := rfl
+  refine ⟨by decide, by decide, ?_, ?_, by decide, rfl, fun _ => rfl, _, rfl, by decide, ?_, _, rfl, by decide, _, rfl, by decide⟩
+  · rw [hf]; intro p hp
+    simp only [List.mem_cons, List.not_mem_nil, or_false] at hp
+    rcases hp with rfl | rfl <;> decide
+  · rw [hf]; intro p hp
+    simp only [List.mem_cons, List.not_mem_nil, or_false] at hp
+    rcases hp with rfl | rfl <;> decide
+  · intro b hb e he
+    simp only [seeded, decide_eq_false_iff_not] at hb
+    simp only [Demo.L, List.mem_cons, List.not_mem_nil, or_false] at he
+    simp only [seeded]
+    rw [if_neg]; omega
 
 /-- the size side conditions of the local laws are satisfiable with non-trivial data -/
 example : (Kind.mul : Kind ℤ).sized 4 ∧ (2 : Nat) < (Kind.fan 2 : Kind ℤ).nOut 3 := by
